@@ -124,6 +124,13 @@ class VNoneDefaultProbe(FloatProbe):
         return {"tag": tag, "d": data.data}
 
 
+class VDefaultsProbe(FloatProbe):
+    """A probe whose defaults are small ints, short strings and booleans (objects the interpreter shares)."""
+
+    def _process_logic(self, data, n: int = 2, label: str = "x", flag: bool = True):
+        return {"n": n, "label": label, "flag": flag, "d": data.data}
+
+
 class VLazyFloatStream(BaseDataType):
     """A lazy data type: wraps a one-shot iterator of floats."""
 
@@ -287,6 +294,40 @@ class VDualPayloadStore(PayloadSource, PayloadSink[FloatDataCollection]):
     @classmethod
     def input_data_type(cls):
         return FloatDataCollection
+
+
+class VNsA:
+    """Two namespaces holding a class of the same name but different meaning."""
+
+    class Scale(FloatOperation):
+        """Multiplies by k."""
+
+        def _process_logic(self, data, k: float = 2.0):
+            return FloatDataType(data.data * k)
+
+
+class VNsB:
+    """See VNsA."""
+
+    class Scale(FloatOperation):
+        """Divides by k."""
+
+        def _process_logic(self, data, k: float = 2.0):
+            return FloatDataType(data.data / k)
+
+
+class VArrayDefaultOp(FloatOperation):
+    """An operation one of whose parameters defaults to a numpy array (element-wise ==)."""
+
+    def _process_logic(self, data, weights=__import__("numpy").array([1.0, 2.0]), gain: float = 1.0):
+        return FloatDataType(float(data.data * gain * float(sum(weights))))
+
+
+class VArrayDefaultProbe(FloatProbe):
+    """A probe with a numpy-array default."""
+
+    def _process_logic(self, data, weights=__import__("numpy").array([0.5, 0.5, 1.0])):
+        return float(data.data * float(sum(weights)))
 
 
 class VLab:
